@@ -163,7 +163,7 @@ type E struct {
 	L, R *E
 }
 
-func lit(l Lit) *E            { return &E{Lit: &l} }
+func lit(l Lit) *E              { return &E{Lit: &l} }
 func bin(op string, l, r *E) *E { return &E{Op: op, L: l, R: r} }
 
 func (e *E) Src() string {
@@ -302,7 +302,14 @@ func dumpStore(ms []*metrics.Metric) []string {
 	return out
 }
 
-func run(src string, optimise bool, lines []string) RunResult {
+func run(src string, optimise bool, lines []string) (res RunResult) {
+	defer func() {
+		// a panic inside the compiler (or the vm) is an outcome like any other:
+		// it must not take the whole sweep down
+		if p := recover(); p != nil {
+			res = RunResult{CompileErr: fmt.Sprintf("panic: %v", p)}
+		}
+	}()
 	var opts []compiler.Option
 	if !optimise {
 		opts = append(opts, compiler.DisableOptimisation())
@@ -351,19 +358,19 @@ func sameRun(a, b RunResult) bool {
 // ---------------------------------------------------------------- AST -> Fold.tree
 
 const (
-	tagCond = 1
-	tagStmtList = 2
-	tagExprList = 3
-	tagBuiltin = 4
-	tagIndexed = 5
-	tagDecoDecl = 6
-	tagDecoStmt = 7
-	tagConv = 8
-	tagPatternExpr = 9
+	tagCond            = 1
+	tagStmtList        = 2
+	tagExprList        = 3
+	tagBuiltin         = 4
+	tagIndexed         = 5
+	tagDecoDecl        = 6
+	tagDecoStmt        = 7
+	tagConv            = 8
+	tagPatternExpr     = 9
 	tagPatternFragment = 10
-	tagDel = 11
-	tagBinOther = 1000 // + op token
-	tagUnary = 2000    // + op token
+	tagDel             = 11
+	tagBinOther        = 1000 // + op token
+	tagUnary           = 2000 // + op token
 )
 
 func arithOp(tok int) string {
@@ -674,7 +681,7 @@ func main() {
 	ints := []int64{0, 1, -1, 7, math.MinInt64, math.MaxInt64}
 	floats := []float64{0.0, math.Copysign(0, -1), 0.5, 2.0, 1e308}
 	if a.Thorough() {
-		ints = append(ints, 2, -7, 3, 63, 64, 1 << 32, -(1 << 53) - 1)
+		ints = append(ints, 2, -7, 3, 63, 64, 1<<32, -(1<<53)-1)
 		floats = append(floats, -2.5, 3.0, -1e308, 5e-324, 1e-310, 0.1, 1024.0, -0.5)
 	}
 	var lits []Lit
@@ -771,6 +778,40 @@ func main() {
 		}
 	}
 
+	// ---- 2b. operators the folder leaves alone, on literal pairs ----
+	// opt.go folds + - * / % ** only.  Shifts, bit operators and comparisons of
+	// two literals stay in the tree and are computed by the VM, which checks
+	// shift counts (a negative or >= 64 count is a runtime error, not a compile
+	// error and certainly not a crash).
+	otherInts := []int64{0, 1, -1, 3, 63, 64, 65, -64, math.MinInt64, math.MaxInt64}
+	bitPositions := []position{positions[0], positions[2], positions[5], positions[9]}
+	for _, op := range []string{"<<", ">>", "&", "|", "^"} {
+		for _, l := range otherInts {
+			for _, r := range otherInts {
+				e := bin(op, lit(Lit{I: l}), lit(Lit{I: r}))
+				p := bitPositions[rng.Intn(len(bitPositions))]
+				src := p.mk(e.Src())
+				g.checkProgram("other-op/"+p.name, src, p.lines, false, false, "Int"+op+"Int")
+				if l == 1 || r == -1 || rng.Intn(8) == 0 {
+					g.treeCases(src, newTabs())
+				}
+			}
+		}
+	}
+	cmpLits := []Lit{{I: 0}, {I: 1}, {I: -1}, {I: math.MinInt64}, {IsF: true, F: 0.5}, {IsF: true, F: 2.0}}
+	for _, op := range []string{"<", "<=", ">", ">=", "==", "!="} {
+		for _, l := range cmpLits {
+			for _, r := range cmpLits {
+				e := bin(op, lit(l), lit(r))
+				src := "counter c\n/x/ && " + e.Src() + " {\n  c++\n}\n"
+				g.checkProgram("other-op/condition-and", src, linesPlain, false, false, l.Ty()+op+r.Ty())
+				if rng.Intn(6) == 0 {
+					g.treeCases(src, newTabs())
+				}
+			}
+		}
+	}
+
 	// ---- 3. a NON-constant operand followed by a chain of literals ----
 	// x op c1 op c2 parses as (x op c1) op c2: the two literals never meet in
 	// one node, so nothing may be folded - and nothing may be reassociated,
@@ -779,8 +820,8 @@ func main() {
 	// lines chosen so that the association order is observable.
 	type operand struct {
 		name, pat, x, pre string
-		lines            []string
-		str              bool
+		lines             []string
+		str               bool
 	}
 	floatLines := []string{"v 1.1", "v 0.1", "v 9007199254740992.0", "v 2.675", "v 0.7", "n"}
 	operands := []operand{
@@ -853,8 +894,8 @@ func main() {
 				}
 				x := &E{Leaf: o.x}
 				shapes := []*E{
-					bin(op, bin(op, x, mkLit(pr[0])), mkLit(pr[1])),                            // (x op c1) op c2
-					bin(op, bin(op, mkLit(pr[0]), x), mkLit(pr[1])),                            // (c1 op x) op c2
+					bin(op, bin(op, x, mkLit(pr[0])), mkLit(pr[1])),                          // (x op c1) op c2
+					bin(op, bin(op, mkLit(pr[0]), x), mkLit(pr[1])),                          // (c1 op x) op c2
 					bin(op, bin(op, x, mkLit(pr[0])), bin(op, mkLit(pr[1]), lit(Lit{I: 2}))), // constants on both sides
 				}
 				for si, ex := range shapes {
